@@ -233,7 +233,10 @@ impl<S: ShapeOps> AnySession for Sess<S> {
             "tl" => {
                 let slot: usize = w[1].parse().unwrap();
                 let cfg = parse_cfg::<S>(w, 3);
-                self.slots.insert(slot, Slot::Tl(S::build(&cfg)));
+                // most timelines are built on a thread of their own and handed over (timelines are `Send`: built by a loader
+                // thread, evaluated on the main one); every fourth slot is built right here
+                let tl = if slot % 4 == 3 { S::build(&cfg) } else { std::thread::scope(|sc| sc.spawn(|| S::build(&cfg)).join().unwrap()) };
+                self.slots.insert(slot, Slot::Tl(tl));
                 self.cfgs.insert(slot, cfg);
                 "ok".into()
             }
@@ -497,6 +500,7 @@ impl Runner {
         sessions.insert("Q5".into(), Box::new(Sess::<Q5Ops> { slots: HashMap::new(), cfgs: HashMap::new(), chain: None }));
         sessions.insert("R4".into(), Box::new(Sess::<R4Ops> { slots: HashMap::new(), cfgs: HashMap::new(), chain: None }));
         sessions.insert("W20".into(), Box::new(Sess::<W20Ops> { slots: HashMap::new(), cfgs: HashMap::new(), chain: None }));
+        sessions.insert("W72".into(), Box::new(Sess::<W72Ops> { slots: HashMap::new(), cfgs: HashMap::new(), chain: None }));
         Runner { sessions, slot_shape: HashMap::new(), subs: HashMap::new(), subs_i: HashMap::new() }
     }
 
@@ -506,6 +510,7 @@ impl Runner {
             "Q5" => Q5Ops::fields(),
             "R4" => R4Ops::fields(),
             "W20" => W20Ops::fields(),
+            "W72" => W72Ops::fields(),
             _ => return "bad-shape".into(),
         };
         let got: Vec<String> = want.iter().map(|(k, a)| format!("{}:{}", k, if *a { "a" } else { "n" })).collect();
